@@ -2,7 +2,7 @@ SPECIFICATION Spec
 CONSTANTS
   LIM = 10
   Sizes = {1, 9, 10, 11}
-  MaxSteps = 6
+  MaxSteps = 5
   Errs = {"overflow"}
   StartEof = TRUE
 INVARIANTS RefAccepts Abstraction ParkedReaderRegistered ParkedFeederRegistered Emit
